@@ -77,6 +77,15 @@ TABLE = {
             "path, returned or raised; a store counts only if the solver finds values for which the stored value differs from the old one. This check re-runs the whole catalogue for that verdict "
             "and adds aliasing-prone groups: already aligned operands through every binary/unary function, raising calls, out=/copyto sources, str/repr with small-number suppression.",
             E1_NOTE, E1_TECH),
+    "C18": ("model_checking", "E2 Kernels",
+            "(A) the real glexsort body is executed once over a symbolic key matrix (bit-vector entries 0..2, up to 3x5 quick / 3x6, 4x5 thorough) with numpy.lexsort/argsort replaced by their "
+            "documented relations (stable only where the code asks): one validity query per (shape, graded, reverse) proves the output is a permutation that sorts the columns; an unstable "
+            "argsort yields a concrete key matrix + legal tie order, replayed natively under a tie-reversing numpy. (B) cross_truncate is symbolically executed on integer-symbolic index rows "
+            "(sqrt atoms for q=0.5/2) and its mask must equal the exact L_q predicate, so the 1e-12*D nudge can never admit an index. (C) for each enumerated glexindex/bindex configuration the "
+            "real function runs concretely and z3 decides for a symbolic exponent tuple x that x in result <=> x between the bounds under the exact norm; order/duplicates/monomial are concrete side checks.",
+            "Trusted: numpy's documented contracts for lexsort (stable) and argsort; z3. Outside: norm 0.8 (z3 unknown), key matrices beyond the stated sizes, float rounding inside the norm beyond the nudge claim. "
+            "Part C executes the enumeration concretely per configuration (start/stop/dimensions are structure); only the membership over exponent tuples is the solver's.",
+            "relational symbolic execution of glexsort over bit-vectors; symbolic execution of cross_truncate; solver-decided membership of glexindex results"),
     "C19": ("model_checking", "E1 SymObj",
             "Symbolic execution of lead_exponent/lead_coefficient (all graded/reverse flags), isconstant, tonumpy, todict, decompose, set_dimensions (targets 1..5), sortable_proxy and "
             "argmax/argmin/amax/amin without axis (all sort options) with symbolic coefficients incl. zero elements, equal leading terms and negative leading coefficients; oracle = exact "
